@@ -112,7 +112,15 @@ def programs(draw, feats=ALL_FEATS, min_nodes=2, max_nodes=8, clean=True, modes=
                     node['params'].append([kw, [m[0], m[1], m[2], [list(c) for c in m[3]]]])
                     used.update(S.mark_sources(m))
                     continue
-                sw = pick()
+                # sometimes the decider of an earlier switch again (two different switches driven by one node)
+                deciders = [m[2] for n_ in b.nodes for _, m in n_['params'] if m[0] == 'sw' and readable(m[2])]
+                same_decider = False
+                if deciders and draw(st.integers(0, 2)) == 0:
+                    sw = draw(st.sampled_from(deciders))
+                    used.add(sw)
+                    same_decider = True
+                else:
+                    sw = pick()
                 if sw is None:
                     continue
                 ncase = _weighted(draw, [(1, 1), (2, 3), (3, 2)])
@@ -126,7 +134,14 @@ def programs(draw, feats=ALL_FEATS, min_nodes=2, max_nodes=8, clean=True, modes=
                     node['params'].append([kw, ['in', sw]])
                     b.consumed.add(sw)
                     continue
-                name = f'sw_{nid}_{j}' if draw(st.integers(0, 7)) else None
+                name = f'sw_{nid}_{j}' if draw(st.integers(0, 3)) else None
+                if same_decider and draw(st.booleans()):
+                    # two UNNAMED switches of one decider must stay two synthetic nodes
+                    name = None
+                    for n_ in b.nodes:
+                        for p_ in n_['params']:
+                            if p_[1][0] == 'sw' and p_[1][2] == sw:
+                                p_[1][1] = None
                 node['params'].append([kw, ['sw', name, sw, cases]])
                 b.consumed.add(sw)
                 b.consumed.update(c for _, c in cases)
